@@ -27,7 +27,7 @@ CHECKS = {
             "DESIGN.md §4 C07"),
     "C08": ("model_checking", E1,
             "base states from explicit-state BFS x transaction programs routed through parent / plain child / extended child store; multiset of delivered events vs reference event list; goroutines joined through the tracked-spawn overlay",
-            "Ten registration styles (typed, function, untyped, id-only, typed and untyped constraint; sync and async) x three change types on five stores record (store, style, type, id, observed state). For every base state and every 1-2 (thorough: 3) operation transaction - committed (also with two succeeding pre-commit actions), rolled back by a caller error, rejected by the model or by a failing pre-commit action (alone or followed by a succeeding one), via Update and Batch - the recorded multiset must equal the reference list derived from the model (one event per committed change with final/last state, one parent event per child change, none for undone work); commit actions and tx-complete listeners exactly once per committed transaction.",
+            "Ten registration styles (typed, function, untyped, id-only, typed and untyped constraint; sync and async) x three change types on five stores record (store, style, type, id, observed state). For every base state and every 1-2 (thorough: 3) operation transaction - committed (also with two succeeding pre-commit actions), rolled back by a caller error, rejected by the model or by a failing pre-commit action (alone or followed by a succeeding one), via Update and Batch - the recorded multiset must equal the reference list derived from the model (one event per committed change with final/last state, one parent event per child change, none for undone work); commit actions and tx-complete listeners exactly once per committed transaction; when an id-only listener runs, a fresh read transaction must already show the state the transaction leaves behind ('after the commit').",
             "Events on the extended child store for entities without extended data are not specified and ignored; two concurrent Batch callers are outside the property.",
             "DESIGN.md §4 C08"),
     "C09": ("model_checking", E1,
